@@ -302,3 +302,60 @@ func VH_C14_gradient_stops_Q() {
 	vAssert("C14.gradient.stops_at_is_the_gradient.b", g[2]-want[2] <= 1.5 && want[2]-g[2] <= 1.5)
 	vAssert("C14.gradient.stops_at_is_the_gradient.a", g[3]-want[3] <= 1.5 && want[3]-g[3] <= 1.5)
 }
+
+// C14-H7 ("rendering ... leaves the canvas, its paths and its gradients unchanged"; colors.go
+// colour-space copies): Gradient.SetColorSpace and SetView return a gradient for the renderer and
+// must leave the receiver - stops included - as it was; calling them twice gives the same result
+// as calling them once.  Linear and radial gradients, 2-3 stops of which one has a symbolic opaque
+// colour, sRGB / gamma 2.2 / linear colour spaces, a non-identity view.
+func VH_C14_gradient_unchanged() {
+	radial := vChoose(0, 1) == 1
+	n := vChoose(2, 3)
+	c := color.RGBA{vNondetByte(), vNondetByte(), vNondetByte(), 255}
+	cols := []color.RGBA{c, {0, 0, 255, 255}, {10, 200, 30, 255}}
+	offs := []float64{0, 0.5, 1}
+	if n == 2 {
+		offs = []float64{0, 1}
+	}
+	var g Gradient
+	var stops *Stops
+	if radial {
+		rg := NewRadialGradient(Point{5, 5}, 1, Point{5, 5}, 6)
+		for i := 0; i < n; i++ {
+			rg.Add(offs[i], cols[i])
+		}
+		g, stops = rg, &rg.Stops
+	} else {
+		lg := NewLinearGradient(Point{0, 0}, Point{10, 0})
+		for i := 0; i < n; i++ {
+			lg.Add(offs[i], cols[i])
+		}
+		g, stops = lg, &lg.Stops
+	}
+	var cs ColorSpace
+	switch vChoose(0, 2) {
+	case 0:
+		cs = SRGBColorSpace{}
+	case 1:
+		cs = GammaColorSpace{2.2}
+	default:
+		cs = LinearColorSpace{}
+	}
+	before := append(Stops{}, (*stops)...)
+	g1 := g.SetColorSpace(cs)
+	same := len(*stops) == len(before)
+	for i := range before {
+		same = same && (*stops)[i] == before[i]
+	}
+	vAssert("C14.gradient.setcolorspace_leaves_receiver", same)
+	// the converted gradient does not depend on how often the conversion was asked for
+	g2 := g.SetColorSpace(cs)
+	a1, a2 := g1.At(2.5, 5), g2.At(2.5, 5)
+	vAssert("C14.gradient.setcolorspace_repeatable", a1 == a2)
+	g3 := g.SetView(Identity.Translate(3, 4).Scale(2, 2))
+	same = len(*stops) == len(before)
+	for i := range before {
+		same = same && (*stops)[i] == before[i]
+	}
+	vAssert("C14.gradient.setview_leaves_receiver", same && g3 != nil)
+}
